@@ -391,37 +391,114 @@ func autoClassMapRange(p *packages.Package, fd *ast.FuncDecl, rs *ast.RangeStmt)
 func c11OrderedPhasesRule(w *World, r *Report) {
 	p := w.Pkg("compile")
 	modnames := w.Field("compile", "Compiler", "modnames")
+	sp := w.SSAPkg("compile")
+	fns := allFuncs(sp)
+	isModnames := func(v ssa.Value) bool {
+		u, ok := v.(*ssa.UnOp)
+		if !ok || u.Op != token.MUL {
+			return false
+		}
+		fa, ok := u.X.(*ssa.FieldAddr)
+		if !ok {
+			return false
+		}
+		pt, _ := fa.X.Type().Underlying().(*types.Pointer)
+		if pt == nil {
+			return false
+		}
+		st, _ := pt.Elem().Underlying().(*types.Struct)
+		return st != nil && st.Field(fa.Field) == modnames
+	}
+	type site struct {
+		g  *ssa.Function
+		in ssa.Instruction
+	}
 	for _, ph := range c11OrderedPhases {
-		f := w.Method("compile", "Compiler", ph)
-		n := 0
-		for _, fd := range funcDecls(p) {
-			if isTestFile(w, fd.Pos()) {
+		fo := w.Method("compile", "Compiler", ph)
+		f := w.SSAFunc(fo)
+		is := func(h *ssa.Function) bool {
+			return h != nil && (h == f || (h.Synthetic != "" && h.Object() != nil && h.Object() == types.Object(fo)))
+		}
+		// the places that run the phase: a call of it, or the call of a
+		// function-valued parameter that was handed the phase
+		var sites []site
+		for _, g := range fns {
+			if isTestFile(w, g.Pos()) {
 				continue
 			}
-			for _, ce := range allCallsTo(p, fd.Body, f) {
-				n++
-				// innermost enclosing range statements
-				inSorted, inMap := false, false
-				ast.Inspect(fd.Body, func(x ast.Node) bool {
-					rs, ok := x.(*ast.RangeStmt)
-					if !ok || !(rs.Body.Pos() <= ce.Pos() && ce.End() <= rs.Body.End()) {
-						return true
+			for _, bl := range g.Blocks {
+				for _, in := range bl.Instrs {
+					ci, ok := in.(ssa.CallInstruction)
+					if !ok {
+						continue
 					}
-					if fieldOfSel(p, rs.X) == modnames {
-						inSorted = true
-					}
-					if t := p.TypesInfo.TypeOf(rs.X); t != nil {
-						if _, isMap := t.Underlying().(*types.Map); isMap {
-							inMap = true
+					cc := ci.Common()
+					direct := is(cc.StaticCallee())
+					if !direct && cc.StaticCallee() == nil && !cc.IsInvoke() {
+						for _, h := range funcValues(cc.Value, 0) {
+							direct = direct || is(h)
 						}
 					}
-					return true
-				})
-				r.Check(inSorted && !inMap, "R11.2", fmt.Sprintf("%s called in %s", ph, funcDeclName(fd)), ce.Pos(), "inside `range c.modnames`, not under a map range",
-					"the order-sensitive phase "+ph+" is not driven by the sorted module order (c.modnames): uses/augment/deviation application order — and with it the verdict and the schema — varies from run to run")
+					if direct {
+						sites = append(sites, site{g, in})
+						continue
+					}
+					h := cc.StaticCallee()
+					if h == nil || h.Blocks == nil {
+						continue
+					}
+					for k, a := range cc.Args {
+						handed := false
+						for _, fv := range funcValues(a, 0) {
+							handed = handed || is(fv)
+						}
+						if !handed || k >= len(h.Params) {
+							continue
+						}
+						found := false
+						for _, hb := range h.Blocks {
+							for _, hin := range hb.Instrs {
+								if hc, ok := hin.(ssa.CallInstruction); ok && hc.Common().Value == ssa.Value(h.Params[k]) {
+									sites = append(sites, site{h, hin})
+									found = true
+								}
+							}
+						}
+						if !found {
+							r.Fail("R11.2", fmt.Sprintf("%s handed to %s", ph, h.Name()), in.Pos(), "where the phase handed over as a value is run was not determined")
+						}
+					}
+				}
 			}
 		}
-		if n == 0 {
+		for _, st := range sites {
+			inSorted, inMap := false, false
+			for _, l := range ssaLoops(st.g) {
+				body := l.body()
+				if !body[st.in.Block()] {
+					continue
+				}
+				for bl := range body {
+					for _, in := range bl.Instrs {
+						switch x := in.(type) {
+						case *ssa.IndexAddr:
+							if isModnames(x.X) {
+								inSorted = true
+							}
+						case *ssa.Next:
+							if rg, ok := x.Iter.(*ssa.Range); ok {
+								if _, isMap := rg.X.Type().Underlying().(*types.Map); isMap {
+									inMap = true
+								}
+							}
+						}
+					}
+				}
+			}
+			r.Check(inSorted && !inMap, "R11.2", fmt.Sprintf("%s run in %s", ph, st.g.Name()), st.in.Pos(), "inside a loop over c.modnames, not under a map range",
+				"the order-sensitive phase "+ph+" is not driven by the sorted module order (c.modnames): uses/augment/deviation application order — and with it the verdict and the schema — varies from run to run")
+		}
+		if len(sites) == 0 {
 			r.Fail("R11.2", ph+" call sites", token.NoPos, "phase is never called")
 		}
 	}
